@@ -94,6 +94,9 @@ for _sel in ("keys", "values", "entries"):
          "in " + _sel + " y>>", 2)
     _add("lc product " + _sel, "[[a, b] for a in " + _sel + " x for b in " +
          _sel + " y]", 2)
+_add("assign undefined", "do never_defined_q = x end", 1)
+_add("opassign undefined", "do never_defined_q += x end", 1)
+_add("destr assign undefined", "do [never_defined_q] = x end", 1)
 _add("self append", "do def v = x; append(v, v); v end", 1)
 _add("self add", "do def v = x; v + v end", 1)
 _add("self eq", "do def v = x; v == v and v <= v end", 1)
